@@ -29,6 +29,8 @@ package sanitize
 //@   loop 0 invariant cursor[C16]: l.start >= 0 && l.start <= l.pos && l.pos <= len(l.src) && l.src == old(l.src)
 //@   loop 0 decreases [C16,C10]: len(l.src) - l.pos
 //@   ensures cursor[C16]: l.start >= 0 && l.start <= l.pos && l.pos <= len(l.src) && l.src == old(l.src)
+//@   ensures the-rune-that-ended-the-number-is-handed-back-unread[C16]: l.start == l.pos
+//@   at-call append assert the-number-read-is-what-is-recorded[C16]: appended == any(num)
 
 //@ func escapeStringState
 //@   loop 0 invariant cursor[C16]: l.start >= 0 && l.start <= l.pos && l.pos <= len(l.src) && l.src == old(l.src)
